@@ -1,0 +1,108 @@
+//go:build verif
+
+package router
+
+import (
+	"net/netip"
+	"time"
+
+	"github.com/mycoria/mycoria/frame"
+	"github.com/mycoria/mycoria/mgr"
+)
+
+// VerifHandleFrame synchronously handles one frame exactly like a router
+// worker does (including returning the frame to the pool on error), wrapped
+// in the same panic recovery.
+// Verification hook: only compiled with the "verif" build tag.
+func (r *Router) VerifHandleFrame(f frame.Frame) error {
+	var handleErr error
+	if err := r.mgr.Do("verif router", func(w *mgr.WorkerCtx) error {
+		if handleErr = r.handleFrame(w, f); handleErr != nil {
+			f.ReturnToPool()
+		}
+		return nil
+	}); err != nil {
+		return err
+	}
+	return handleErr
+}
+
+// VerifHandleTunPacket synchronously handles one packet from the local
+// interface exactly like a tun handler worker does, wrapped in the same panic
+// recovery. With noWait, the worker context is canceled up front, so that
+// waiting for a hello ping response returns immediately.
+// Verification hook: only compiled with the "verif" build tag.
+func (r *Router) VerifHandleTunPacket(packetData []byte, noWait bool) error {
+	return r.mgr.Do("verif tun handler", func(w *mgr.WorkerCtx) error {
+		if noWait {
+			w.Cancel()
+		}
+		r.handleTunPacket(w, packetData)
+		return nil
+	})
+}
+
+// VerifAnnounce announces the router to all peers once, like the announce
+// worker does on every tick.
+// Verification hook: only compiled with the "verif" build tag.
+func (r *Router) VerifAnnounce() error {
+	return r.mgr.Do("verif announce", func(w *mgr.WorkerCtx) error {
+		r.announceRouter(w)
+		return nil
+	})
+}
+
+// VerifConnState is a snapshot of one connection state entry.
+type VerifConnState struct {
+	LocalIP    netip.Addr
+	RemoteIP   netip.Addr
+	Protocol   uint8
+	LocalPort  uint16
+	RemotePort uint16
+	Inbound    bool
+	Status     uint32
+}
+
+// VerifConnStates returns a snapshot of the connection states.
+// Verification hook: only compiled with the "verif" build tag.
+func (r *Router) VerifConnStates() []VerifConnState {
+	r.connStatesLock.RLock()
+	defer r.connStatesLock.RUnlock()
+
+	states := make([]VerifConnState, 0, len(r.connStates))
+	for key, entry := range r.connStates {
+		states = append(states, VerifConnState{
+			LocalIP:    key.localIP,
+			RemoteIP:   key.remoteIP,
+			Protocol:   key.protocol,
+			LocalPort:  key.localPort,
+			RemotePort: key.remotePort,
+			Inbound:    entry.inbound,
+			Status:     entry.status.Load(),
+		})
+	}
+	return states
+}
+
+// VerifHelloPending returns whether there is an unexpired hello ping state
+// for the given remote and whether it has already been completed.
+// Verification hook: only compiled with the "verif" build tag.
+func (r *Router) VerifHelloPending(remote netip.Addr) (active, done bool) {
+	state := r.HelloPing.getActive(remote)
+	if state == nil {
+		return false, false
+	}
+	return true, state.done.Load()
+}
+
+// VerifExpireHello simulates the passage of time by expiring the hello ping
+// state for the given remote.
+// Verification hook: only compiled with the "verif" build tag.
+func (r *Router) VerifExpireHello(remote netip.Addr) {
+	r.HelloPing.activeLock.Lock()
+	defer r.HelloPing.activeLock.Unlock()
+
+	if state := r.HelloPing.active[remote]; state != nil {
+		state.expires = time.Now().Add(-time.Second)
+	}
+}
